@@ -294,6 +294,12 @@ func tags(c Case) []string {
 	if c.Mode == mFault {
 		t = append(t, "cursor-fault:"+kind)
 	}
+	if conds[c.Chain.Cond].TopOr {
+		t = append(t, kind+"+top-level-or")
+		if p.Kind == kFIB && fibIssuesSecondQuery(c.Chain, c.Batch) {
+			t = append(t, "fib+top-level-or+key-cursor-used")
+		}
+	}
 	if c.Mode == mInCB {
 		in := paths[pathIndex(c.Inner)]
 		t = append(t, "in-callback:"+kindNames[in.Kind])
@@ -328,3 +334,29 @@ func tags(c Case) []string {
 var kindNames = []string{"multi", "single", "finder", "primitive", "count", "fib"}
 
 func joinEvents(ev []string) string { return strings.Join(ev, "\n  ") }
+
+// fibIssuesSecondQuery tells (from the input and the reference model only)
+// whether FindInBatches needs its key cursor for this chain: the first batch
+// comes back full and the limit is not exhausted by it, so a second query
+// "... AND id > <last key>" is issued.
+func fibIssuesSecondQuery(c Chain, batch int) bool {
+	limit, hasLimit, _ := c.effective()
+	if hasLimit && limit == 0 {
+		return false
+	}
+	size := batch
+	if hasLimit && limit > 0 && size > limit {
+		size = limit
+	}
+	first := len(c.expectFind())
+	if first > size {
+		first = size
+	}
+	if first < size {
+		return false
+	}
+	if hasLimit && limit > 0 && limit <= first {
+		return false
+	}
+	return true
+}
